@@ -60,4 +60,92 @@ func splitTopic(topic string) (levels []string, ok bool)
   invariant[1] flag: wildCardFlag <==> (exists k int :: levelStart <= k && k < i && wildAt(topic, k))
   invariant[1] hash-only-last: forall k int :: 0 <= k && k < i && topic[k] == 35 ==> k == len(topic) - 1
   invariant[1] finished-levels-well-formed: forall k int :: 0 <= k && k < levelStart ==> ruleAt(topic, k)
+
+// ---- C16 / C17: sessions, takeover, connection cap ----
+// The broker's client map is protected by the embedded RWMutex; the cap must hold at every Unlock,
+// hence at every instant and for every interleaving of connects, disconnects and takeovers.
+guarded Broker.{clients} by RWMutex
+type Broker invariant cap: self.spec.MaxAllowedConnection > 0 ==> len(self.clients) <= self.spec.MaxAllowedConnection
+type Broker invariant map: self.clients != nil && (forall c string :: c in self.clients ==> self.clients[c] != nil)
+
+// session registry of the session manager (sync.Map, trusted linearizable): sessOf[id] = session ref or 0
+ghost var sessOf mmap[string]int
+ghost var closedSess set[int]
+
+func (sm *SessionManager) get(clientID string) (sess *Session)
+  trusted
+  ensures ref(sess) == sessOf[clientID]
+  ensures sess != nil ==> sess.info != nil
+
+func (sm *SessionManager) newSessionFromConn(connect *packets.ConnectPacket) (sess *Session)
+  trusted
+  flag allocates
+  requires connect != nil
+  modifies sessOf
+  ensures sess != nil && fresh(sess) && sessOf == old(store(sessOf, connect.ClientIdentifier, ref(sess)))
+
+func (s *Session) close()
+  trusted
+  modifies closedSess
+  ensures closedSess == old(store(closedSess, ref(s), true))
+
+func (b *Broker) setSession(client *Client, connect *packets.ConnectPacket)
+  requires b != nil && b.sessMgr != nil && client != nil && connect != nil
+  modifies client.session, sessOf, closedSess
+  ensures previous-session-resumed-iff-both-persistent: let prev = old(sessOf[connect.ClientIdentifier]) in ((ref(client.session) == prev && prev != 0) <==> (!connect.CleanSession && prev != 0 && !old(ptr(prev, "*Session").info.CleanFlag)))
+  ensures resumed-session-untouched: let prev = old(sessOf[connect.ClientIdentifier]) in (ref(client.session) == prev && prev != 0 ==> sessOf == old(sessOf) && closedSess == old(closedSess))
+  ensures otherwise-previous-discarded-and-new-registered: let prev = old(sessOf[connect.ClientIdentifier]) in (!(ref(client.session) == prev && prev != 0) ==> client.session != nil && fresh(client.session) && sessOf[connect.ClientIdentifier] == ref(client.session) && (prev != 0 ==> closedSess[prev]))
+
+func (b *Broker) removeClient(clientID string)
+  requires b != nil && b.spec != nil
+  modifies entries(b.clients), allof("map<string,*object/mqttproxy.Client>#dom"), allof("map<string,*object/mqttproxy.Client>#val"), allof("map<string,*object/mqttproxy.Client>#card")
+  ensures only-a-disconnected-registration-is-removed: forall c string :: (c in b.clients) <==> (old(c in b.clients) && !(c == clientID && old(b.clients[clientID].statusFlag) == Disconnected))
+  ensures survivors-unchanged: forall c string :: c in b.clients ==> b.clients[c] == old(b.clients[c])
+
+func (b *Broker) getClient(clientID string) (c *Client)
+  requires b != nil
+  ensures c != nil ==> (clientID in b.clients) && c == b.clients[clientID]
+  ensures c == nil ==> !(clientID in b.clients)
+
+ghost var gCur int
+ghost var unsubCount int
+
+func (sm *SessionManager) delLocal(clientID string)
+  trusted
+  modifies sessOf, closedSess
+func (sm *SessionManager) delDB(clientID string)
+  trusted
+func (s *Session) allSubscribes() (topics []string, qoss []byte, err error)
+  trusted
+  flag allocates
+func (mgr *TopicManager) unsubscribe(topics []string, clientID string) (err error)
+  trusted
+  modifies unsubCount
+  ensures unsubCount == old(unsubCount) + 1
+func (c *Client) close()
+  trusted
+
+func (c *Client) closeAndDelSession()
+  requires c != nil && c.broker != nil && c.broker.sessMgr != nil && c.broker.topicMgr != nil && c.session != nil && c.session.info != nil
+  modifies sessOf, closedSess, unsubCount, gCur
+  ensures teardown-of-a-superseded-connection-touches-nothing-of-the-successor: gCur != 0 && gCur != ref(c) ==> sessOf == old(sessOf) && closedSess == old(closedSess) && unsubCount == old(unsubCount)
+  ghost at call[1] getClient: gCur := ref(c)
+
+// ---- handleConn: the locked region keeps the cap (checked at both Unlock sites) ----
+func (b *Broker) connectionValidation(connect *packets.ConnectPacket, conn net.Conn) (client *Client, connack *packets.ConnackPacket, valid bool)
+  trusted
+  flag allocates
+  ensures valid ==> client != nil && fresh(client) && connack != nil
+func (s *Session) updateEGName(egName string, name string)
+  trusted
+func (mgr *TopicManager) subscribe(topics []string, qoss []byte, clientID string) (err error)
+  trusted
+func (c *Client) readLoop()
+  trusted
+func (c *Client) writeLoop()
+  trusted
+
+func (b *Broker) handleConn(conn net.Conn)
+  flag frame=unchecked
+  requires b != nil && b.spec != nil && b.sessMgr != nil && b.topicMgr != nil && conn != nil
 @*/
